@@ -407,6 +407,36 @@ class C01(Property):
         calls = [call(0, 0, 1, gap=10 * MS, m=big) for _ in range(100)]
         calls += [call(2, 0, 1, gap=0, m=thr - 4096), call(2, 0, 1, gap=0, m=(94 * TWO53) // 100)]
         cs.append({"base": B, "calls": calls})
+        # (7) idle for more than one window (2.5 / 3 windows + part of a bucket / exactly 2 windows), then a burst: the
+        # calls recorded a moment ago must all be in the window, sustained failure right after the idle time is shed
+        # (seeded C01-1: the window's lastTime lags after a long gap)
+        for idle in (25 * SEC + 3 * MS, 30 * SEC + IV - 1, 20 * SEC):
+            calls = [fail(gap=MS) for _ in range(8)]
+            calls += [fail(gap=idle, m=big)] + [fail(gap=MS, m=big) for _ in range(11)]
+            calls += [call(2, 0, 1, gap=MS, m=0), call(0, 1, 0, gap=0, m=0), ok(gap=IV, m=big), call(3, 0, 1, gap=1, m=0)]
+            calls += [ok(gap=idle + 7, m=big)] + [ok(gap=0) for _ in range(5)] + [fail(gap=IV + 1) for _ in range(9)]
+            calls += [call(2, 0, 1, gap=0, m=0)]
+            cs.append({"base": B + 11, "calls": calls})
+        # (8) flapping: a throttled admission (sets lastPass), recovery (decisions on the healthy path), more failures
+        # admitted on the healthy path until the breaker throttles again, rejections less than 1 s later, then a call
+        # more than 1 s after the last THROTTLED admission drawing 0: it must be force-admitted (seeded C01-5: lastPass
+        # forgotten on the healthy path)
+        for e_ok, e_bad in ((0, 0), (4, 5), (1, 3)):
+            calls = [call(e_bad, 0, 1, gap=0, m=big) for _ in range(7)]           # the 7th is a lucky pass while throttling
+            calls += [call(e_ok, 0, 0, gap=MS, m=big) for _ in range(12)]         # recovery: the last ones on the healthy path
+            calls += [call(e_bad, 0, 1, gap=MS, m=big) for _ in range(3)]         # healthy admissions that fail
+            calls += [call(e_bad, 0, 1, gap=MS, m=0) for _ in range(30)]          # admitted while healthy, shed once throttling
+            calls += [call(2, 0, 0, gap=SEC + 1, m=0), call(2, 0, 1, gap=1, m=0), call(0, 0, 1, gap=SEC + 1, m=0)]
+            cs.append({"base": B + 12, "calls": calls})
+        # (9) a slow probe that fails: admitted while throttling (forced / lucky), takes 1.2 s .. 3 s, ends as a failure
+        # (error, panic, Promise.Reject); the next call comes a moment after its END, i.e. more than 1 s after its
+        # ADMISSION, drawing 0: it must be force-admitted (seeded C01-8: lastPass re-stamped when a probe fails)
+        calls = [fail(gap=MS, m=big) for _ in range(40)]
+        for e, o in ((0, 1), (1, 3), (5, 0), (3, 9), (2, 1)):
+            calls += [call(e, 0, o, gap=SEC + 1, dur=SEC + 200 * MS, m=0), call(2, 0, 1, gap=MS, dur=3 * SEC, m=0),
+                      call(0, 1, 1, gap=MS, m=0), call(2, 0, 1, gap=MS, m=0)]
+        cs.append({"base": B + 13, "calls": calls})
+        cs += self._conc_corpus()
         cs += self._wrapper_corpus()
         cs += self._multi_corpus()
         # minimised past failures
@@ -512,6 +542,28 @@ class C01(Property):
         if rng.random() < 0.2:
             sched.append([rng.choice([len(calls), len(calls) + 3, 0]), 5])   # no-op actions
         return {"base": 10 ** 15 + rng.randrange(IV), "calls": calls, "conc": {"sched": sched}}
+
+    def _conc_corpus(self):
+        """forced interleavings that do not depend on VERIF_SEED"""
+        cs = []
+        big = TWO53 - 1
+        B = 10 ** 15 + 999
+        # (a) a probe in flight for longer than 1 s: 30 failures (the last ones lucky passes: lastPass set), then call A
+        # starts 1 s + 1 ns later (force pass) and stays in its request; B, C start 1 s + 1 ns / 2 s after A's ADMISSION
+        # drawing 0 while A is still running: each is more than 1 s after the previous throttled admission - admitted
+        # (seeded C01-7: one forced probe at a time); D right after C is shed; then they finish in another order
+        for ents in ((0, 0, 0, 0), (4, 2, 5, 3), (2, 5, 1, 4)):
+            nseq = 30
+            calls = [call(0, 0, 1, 0, 0, big) for _ in range(nseq)]
+            sched = []
+            for i in range(nseq):
+                sched += [[i, MS], [i, 0]]
+            A, Bt, C, D = nseq, nseq + 1, nseq + 2, nseq + 3
+            outs = [1 if e != 4 else 0 for e in ents]
+            calls += [call(ents[j], 0, outs[j], 0, 0, 0) for j in range(4)]
+            sched += [[A, SEC + 1], [Bt, SEC + 1], [C, 2 * SEC], [D, MS], [Bt, MS], [A, SEC], [C, 1], [D, 0]]
+            cs.append({"base": B, "calls": calls, "conc": {"sched": sched}})
+        return cs
 
     # ---- several breakers, the registry, nested calls
     @staticmethod
